@@ -10,7 +10,7 @@ import z3
 
 from .core import (Sym, OutsideSubset, EngineError, PyRaise, ExcVal, py_raise, binop, unop, compare, wrap, to_z3,
                    And, Or, Not, Eq, If)
-from .values import Obj, Extern, GuardedList, SymSet, SymMap, MapBox, SymArr, ModelValue, FlexDict, unflex, SymBytes, Uninterp, IdSet
+from .values import Native, Obj, Extern, GuardedList, SymSet, SymMap, MapBox, SymArr, ModelValue, FlexDict, unflex, SymBytes, Uninterp, IdSet
 from . import strings
 
 
@@ -160,6 +160,8 @@ def getitem(it, o, k):
         raise OutsideSubset("subscript of a symbolic string")
     if isinstance(o, Obj) and o.has_field('__getitem__'):
         return it.call_value(o.field('__getitem__'), [k], {})
+    if isinstance(o, Native):
+        return _native(operator.getitem, o, k)
     if o is None:
         py_raise(TypeError, "'NoneType' object is not subscriptable")
     if isinstance(o, (Sym, ModelValue, Obj, Extern)):
